@@ -1,6 +1,20 @@
 // Kani harnesses for src/internal/stringpool.rs (child module `vk`)
 use super::*;
 
+/// harness helper: take the Ok value of an io::Result without pulling the
+/// Debug/Drop machinery of io::Error into the model (unwrap() would)
+pub fn must<T>(r: std::io::Result<T>) -> T {
+    match r {
+        Ok(x) => x,
+        Err(e) => {
+            core::mem::forget(e);
+            assert!(false, "expected Ok");
+            kani::assume(false);
+            unreachable!()
+        }
+    }
+}
+
 pub fn stub_format(_args: core::fmt::Arguments<'_>) -> String {
     String::new()
 }
@@ -29,6 +43,7 @@ pub fn stub_decode_const(_cp: &CodePage, bytes: &[u8]) -> String {
 
 // @harness name=strref_codec kind=Pc tier=quick props=C01,C08 desc="StringRef::write/read for None and every reference 1..=0xffffff: long mode emits exactly the 3 little-endian bytes and reads back; short mode emits the 2 little-endian bytes when the number fits 16 bits and otherwise returns an error without writing"
 #[kani::proof]
+#[kani::unwind(3)]
 #[kani::stub(alloc::fmt::format, stub_format)]
 fn strref_codec() {
     let long: bool = kani::any();
@@ -47,7 +62,7 @@ fn strref_codec() {
         assert!(buf[0] as i32 | (buf[1] as i32) << 8 | (buf[2] as i32) << 16 == number);
         assert!(buf[3] == 0x77);
         let mut r: &[u8] = &buf[..3];
-        assert!(StringRef::read(&mut r, true).unwrap() == sref);
+        assert!(must(StringRef::read(&mut r, true)) == sref);
         assert!(r.is_empty());
     } else if number <= 0xffff {
         assert!(res.is_ok());
@@ -55,7 +70,7 @@ fn strref_codec() {
         assert!(buf[0] as i32 | (buf[1] as i32) << 8 == number);
         assert!(buf[2] == 0x77);
         let mut r: &[u8] = &buf[..2];
-        assert!(StringRef::read(&mut r, false).unwrap() == sref);
+        assert!(must(StringRef::read(&mut r, false)) == sref);
         assert!(r.is_empty());
     } else {
         assert!(res.is_err());
@@ -65,6 +80,8 @@ fn strref_codec() {
 
 // @harness name=strref_read_any kind=Pc tier=quick props=C02,C09 desc="StringRef::read on any 0..3 bytes, both widths: never panics; short input is an error; 0 is the null reference; otherwise the little-endian number, and number()/index() do not trip their assertions"
 #[kani::proof]
+#[kani::stub(alloc::fmt::format, stub_format)]
+#[kani::unwind(3)]
 fn strref_read_any() {
     let long: bool = kani::any();
     let buf: [u8; 3] = kani::any();
@@ -77,7 +94,7 @@ fn strref_read_any() {
         assert!(got.is_err());
     } else {
         let n = buf[0] as i32 | (buf[1] as i32) << 8 | if long { (buf[2] as i32) << 16 } else { 0 };
-        match got.unwrap() {
+        match must(got) {
             None => assert!(n == 0),
             Some(sr) => {
                 assert!(n != 0 && sr.number() == n);
@@ -124,6 +141,7 @@ fn text_of(k: u8) -> &'static str {
 
 // @harness name=pool_incref_2slots kind=Bk tier=quick props=C08,C01 bound="pool of 2 slots, texts from {free,'a','b'}, new text from {'a','b','c'}, refcounts all of u16" desc="incref(s), s non-empty, on a well-formed pool: the returned reference names a slot holding s whose count went up by exactly one (or became 1), every other slot is untouched, a slot is appended only when no free slot and no matching slot below the 16-bit cap exists, the pool stays well-formed and is marked modified"
 #[kani::proof]
+#[kani::stub(alloc::fmt::format, stub_format)]
 #[kani::unwind(4)]
 fn pool_incref_2slots() {
     let (mut pool, k, rc) = any_pool2();
@@ -185,12 +203,13 @@ fn pool_decref_2slots() {
 
 // @harness name=pool_get_any_ref kind=Bk tier=quick props=C09,C08 bound="pool of 2 slots; the reference is any 3-byte value" desc="StringPool::get / refcount on ANY non-null reference (dangling or not) return the slot's text/count or \"\"/0, without panicking"
 #[kani::proof]
+#[kani::stub(alloc::fmt::format, stub_format)]
 #[kani::unwind(4)]
 fn pool_get_any_ref() {
     let (pool, k, rc) = any_pool2();
     let bytes: [u8; 3] = kani::any();
     let mut r: &[u8] = &bytes;
-    if let Some(sr) = StringRef::read(&mut r, true).unwrap() {
+    if let Some(sr) = must(StringRef::read(&mut r, true)) {
         let i = sr.index();
         let s = pool.get(sr);
         let c = pool.refcount(sr);
@@ -246,7 +265,7 @@ fn pool_read_header_any() {
             if bad {
                 assert!(got.is_err());
             } else {
-                let b = got.unwrap();
+                let b = must(got);
                 assert!(b.codepage == cp);
                 assert!(b.long_string_refs == (header & 0x8000_0000 != 0));
                 assert!(b.lengths_and_refcounts.len() == n);
@@ -284,7 +303,7 @@ fn pool_build_from_data_any() {
     if dlen < need {
         assert!(got.is_err());
     } else {
-        let p = got.unwrap();
+        let p = must(got);
         assert!(p.strings.len() == n);
         assert!(p.long_string_refs == long && !p.is_modified);
         if n > 0 { assert!(p.strings[0].1 == c[0] && p.strings[0].0.is_empty() == (l[0] == 0)); }
@@ -330,7 +349,7 @@ fn pool_write_read_pair() {
     // pair: only meaningful under the pool invariant (no live entry of encoded length 0)
     kani::assume(!(l0 == 0 && rc[0] > 0) && !(l1 == 0 && rc[1] > 0));
     kani::cover!(l0 == 3 && rc[0] == u16::MAX);
-    let b = StringPoolBuilder::read_from_pool(&out[..n]).unwrap();
+    let b = must(StringPoolBuilder::read_from_pool(&out[..n]));
     assert!(b.codepage == cp || (cp.id() == 65001 && b.codepage == CodePage::Utf8));
     assert!(b.long_string_refs == long);
     assert!(b.lengths_and_refcounts.len() == 2);
